@@ -256,6 +256,18 @@ impl NetProbe for NonceProbe {
         }
         self.sealed += 1;
         let dir = matches!(g.by, Who::Client(_));
+        // scope: one connection attempt and the session that follows. A second session for the same token (the
+        // counters restart by design, e.g. after late duplicates of the handshake re-create a session the
+        // server had closed) starts with the server's keep-alive number 0: forget the previous session's
+        // keep-alive / payload / disconnect entries, keep the handshake replies
+        if !dir && ty == 4 && seq == 0 {
+            if let Some((d0, _)) = self.seen.get(&(i, false, 0)) {
+                if sim.dgs[*d0].opened.map(|o| o.0) == Some(4) {
+                    let dgs = &sim.dgs;
+                    self.seen.retain(|k, (d, _)| !(k.0 == i && !k.1 && matches!(dgs[*d].opened.map(|o| o.0), Some(4) | Some(5) | Some(6))));
+                }
+            }
+        }
         let names = ["request", "denied", "challenge", "response", "keep-alive", "payload", "disconnect"];
         if let Some((d0, old)) = self.seen.get(&(i, dir, seq)) {
             if *old != g.bytes {
@@ -322,6 +334,17 @@ pub fn nonce_scenarios(tier: Tier) -> Vec<NetScenario> {
         c.horizon = 11;
         c.tail = 8;
         c.fates = vec![NFate::Ok, NFate::Drop, NFate::Dup, NFate::Delay1];
+        v.push(c);
+    }
+    // both clients are challenged while one slot is free; the loser is denied at the response step; the slot is
+    // freed; a late duplicate of the loser's request makes it pending again and its response retry connects it
+    {
+        let mut c = SimCfg::base("1-slot server: two clients challenged together, client 1 disconnected at tick 2, late duplicates allowed", vec![ClientCfg::new(1), ClientCfg::new(2)]);
+        c.max_clients = 1;
+        c.server_disconnect = Some((2, 1));
+        c.horizon = 5;
+        c.tail = 8;
+        c.fates = vec![NFate::Ok, NFate::Drop, NFate::DupLate3, NFate::Delay2];
         v.push(c);
     }
     // three clients connecting on an already used server (handshake replies use the shared counter)
@@ -393,7 +416,7 @@ pub fn run(tier: Tier) -> i32 {
     }
     if rep.machinery.is_none() {
         let sc = nonce_scenarios(tier);
-        run_net_scenarios(&mut rep, "nonce", &sc, tier.pick(2, 3), tier.pick(120.0, 1500.0));
+        run_net_scenarios(&mut rep, "nonce", &sc, tier.pick(2, 4), tier.pick(120.0, 3000.0));
     }
     rep.violations.retain(|v| !v.signature.starts_with("C13/"));
     rep.finish()
